@@ -283,7 +283,25 @@ func cmdCheck(args []string) int {
 		}
 		samples = append(samples, evSample{"lemma::" + lr.Ob.Name, "lemma", truncate(lr.Ob.Text, 200), lr.Status, lr.Solver, round3(lr.Seconds), lr.SMTSize, lr.Ob.Pos})
 	}
-	if len(units) == 0 && len(lemmaRes) == 0 {
+	ruleRes := p.checkRules(*prop)
+	ruleOK := 0
+	for _, rr := range ruleRes {
+		obligations++
+		st := "proved"
+		if rr.OK {
+			discharged++
+			ruleOK++
+		} else {
+			st = "refuted"
+			ob := &Obligation{Name: rr.Name, Kind: "rule", Text: rr.Rule.Text, Pos: fmt.Sprintf("%s:%d", strings.TrimPrefix(rr.Rule.File, "/repo/"), rr.Rule.Line)}
+			report(shortPkg(rr.Rule.Pkg)+"::"+rr.Name, ob, "refuted (enumeration over SSA)", rr.Detail, "", "")
+		}
+		samples = append(samples, evSample{shortPkg(rr.Rule.Pkg) + "::" + rr.Name, "rule", truncate(rr.Rule.Text, 200), st, "ssa-enumeration", 0, 0, ""})
+	}
+	if len(ruleRes) > 0 {
+		usedSet["structural rules decided by enumeration over go/ssa (writers of a field, callers incl. CHA dispatch, method sets)"] = true
+	}
+	if len(units) == 0 && len(lemmaRes) == 0 && len(ruleRes) == 0 {
 		lines = append(lines, fmt.Sprintf("VIOLATION property=%s replay=%s no-failing-input-found", *prop, filepath.Join(*verifDir, "replays", *prop+"-no-obligations.json")))
 		os.WriteFile(filepath.Join(*verifDir, "replays", *prop+"-no-obligations.json"), []byte(`{"error":"no function carries a contract clause for this property: zero obligations generated"}`), 0644)
 		violations++
